@@ -301,7 +301,25 @@ class Tag(HostModel):
 
     # ---- serialisation (formatter=None: nothing is substituted)
     def _open(self):
-        at = "".join(f' {k}="{v}"' for k, v in self.attrs.items())
+        # bs4.element.Tag.decode: a value of None gives a bare attribute name; a list is joined with blanks; anything else is
+        # str()-ed; the value is put in double quotes unless it holds a double quote and no single quote (then single
+        # quotes), and with both kinds inside the double quotes become &quot; (EntitySubstitution.quoted_attribute_value)
+        at = ""
+        for k, v in self.attrs.items():
+            if v is None:
+                at += f" {k}"
+                continue
+            if isinstance(v, (list, tuple)):
+                v = " ".join(str(x) for x in v)
+            elif not isinstance(v, str):
+                v = str(v)
+            q = '"'
+            if '"' in v:
+                if "'" in v:
+                    v = v.replace('"', "&quot;")
+                else:
+                    q = "'"
+            at += f" {k}={q}{v}{q}"
         return f"<{self.name}{at}"
 
     def _lines(self, depth, out):
